@@ -285,13 +285,40 @@ def run_case(pair, case):
     mode = case.get("mode", "pattern")
     pi, pm = project(ci.trace, mode), project(cm.trace, mode)
     res["agree"] = pi == pm
-    if not res["agree"]:
+    if pi != pm:
         for k, (a, b) in enumerate(zip(pi, pm)):
             if a != b:
                 res["first_diff"] = {"index": k, "impl": repr(a)[:400], "model": repr(b)[:400]}
                 break
         else:
             res["first_diff"] = {"index": min(len(pi), len(pm)), "impl_len": len(pi), "model_len": len(pm)}
+    # cross-check: operations that draw no randomness are pure functions of their arguments; replay the
+    # implementation's own arguments on the model and compare the results byte for byte.  This is insensitive to
+    # how the implementation draws randomness elsewhere, and sensitive to any deviation from the proved model
+    # in the operation itself (e.g. a transcript framed differently but consistently on both sides).
+    cross_ops = case.get("cross") or ()
+    ncross = 0
+    if res["agree"] and cross_ops:
+        seen = set()
+        for t in ci.trace:
+            if t["op"] not in cross_ops or t.get("impl_only") or t["status"] not in ("OK", "ERR"):
+                continue
+            key = (t["op"], tuple(t["args"]))
+            if key in seen:
+                continue
+            seen.add(key)
+            if case.get("cross_limit") and ncross >= case["cross_limit"]:
+                break
+            ncross += 1
+            st, pl = pair.model.call(t["suite"], t["op"], t["args"])
+            if st == "BADREQ":
+                continue     # a token only the harness understands (e.g. an Argon2 instance)
+            if (st, pl) != (t["status"], t["payload"]):
+                res["agree"] = False
+                res["first_diff"] = {"cross_check": t["op"], "args": [a[:80] for a in t["args"]],
+                                     "impl": repr((t["status"], t["payload"]))[:300], "model": repr((st, pl))[:300]}
+                break
+    res["cross_checked"] = ncross
     res["oracle_fail_impl"] = [w for ok, w in ci.oracle if not ok]
     res["oracle_fail_model"] = [w for ok, w in cm.oracle if not ok]
     res["oracle_checks"] = len(ci.oracle)
